@@ -218,7 +218,54 @@ func emitStream(cw *caseWriter, prop string, ti, to []colDesc, proc string, revs
 	cw.emit(prop+" "+descStr(ti)+descStr(to)+proc+readerStr(revs)+ws, nontrivial, "stream", prop, descStr(ti), descStr(to), proc, readerStr(revs), ws, extStr(ext), obs)
 }
 
-var streamLines = []string{`{"a":1}`, `{"b":"x","a":null}`, ``, `{`, `[1]`, `{"a":"notanumber"}`, `{"a":2,"z":[1,{"q":1}]}`, `   `, `{"a":1} trailing`, `{}`, `null`, `{"a":3}`}
+// emitStreamAfterHeader: `{"header":1}` + LF + data on one untemplated importer; ReadOne() takes the header,
+// WithTemplate(ti) is applied, and the importer it returns is streamed under the tolerant processor. The case
+// handed to the model is the plain stream of `data`.
+func emitStreamAfterHeader(cw *caseWriter, prop string, ti, to []colDesc, data []byte) {
+	full := append([]byte("{\"header\":1}\n"), data...)
+	r := &scriptReader{evs: chunk(full, []int{1 << 20})}
+	w := &scriptWriter{}
+	var calls []string
+	var ret error
+	pan := guard(func() {
+		imp := jsonline.NewImporter(r)
+		_, _ = imp.ReadOne()
+		imp2 := imp.WithTemplate(buildTemplate(ti))
+		ret = jsonline.NewStreamer(imp2, buildTemplate(to).GetExporter(w)).WithProcessor(func(row jsonline.Row, err error) error {
+			b := "0"
+			if row != nil {
+				b = "1"
+			}
+			calls = append(calls, b+":"+classifyStream(err))
+			return nil
+		}).Stream()
+	})
+	obs := "panic " + strings.ReplaceAll(pan, "\t", " ")
+	if pan == "" {
+		ws := make([]string, len(w.writes))
+		for i, b := range w.writes {
+			ws[i] = hxs(string(b))
+		}
+		cs, wss := strings.Join(calls, ","), strings.Join(ws, ";")
+		if cs == "" {
+			cs = "-"
+		}
+		if wss == "" {
+			wss = "none"
+		}
+		obs = fmt.Sprintf("ret=%s calls=%s writes=%s", classifyStream(ret), cs, wss)
+	}
+	ext := map[string]string{}
+	for _, l := range bytes.Split(data, []byte("\n")) {
+		extForJSON(l, ext)
+	}
+	cw.count("stream-after-header")
+	cw.emit(prop+" after header "+descStr(ti)+descStr(to)+string(data), true, "stream", prop, descStr(ti), descStr(to), "tolerant", readerStr(chunk(data, []int{1 << 20})), "-", extStr(ext), obs)
+}
+
+var streamLines = []string{`{"a":1}`, `{"b":"x","a":null}`, ``, `{`, `[1]`, `{"a":"notanumber"}`, `{"a":2,"z":[1,{"q":1}]}`, `   `, `{"a":1} trailing`, `{}`, `null`, `{"a":3}`,
+	// an escaped line feed (and other control characters) in a member name and in a value: still one line out
+	`{"k\nk":1,"a":2,"v":"x\ny\r\n"}`, `{"\u000a":"\u000a","\t\u0000":[{"\n":1}]}`}
 
 // oddLines: the lines of other framings of the same data (a pretty-printed object or array spread over several
 // lines, so lines that START with a closing or separating character or stop with a bracket still open),
@@ -272,6 +319,15 @@ func genC07(cw *caseWriter, seed uint64, tier string) {
 			sz := pick(r, sizesets)
 			emitStream(cw, "C07", pr[0], pr[1], proc, chunk(data, sz), nil, data, true)
 		}
+		if i%5 == 0 {
+			// a header line read with ReadOne() first, a template applied to the importer afterwards, the rest streamed
+			// with the importer WithTemplate returns: the rest is processed as if it were the whole input
+			emitStreamAfterHeader(cw, "C07", pr[0], pr[1], data)
+		}
+		if i%12 == 0 && !bytes.Contains(data, []byte{0}) {
+			// the same stream through the jl binary (its own processor logs and carries on)
+			emitStreamJl(cw, "C07", pr[0], pr[1], data, false)
+		}
 	}
 	// long streams: what shows only on the 65th, 257th or 1025th line, or after many rejected lines
 	for _, nl := range []int{70, 300, 1100} {
@@ -292,6 +348,69 @@ func genC07(cw *caseWriter, seed uint64, tier string) {
 		data := []byte(`{"a":1}` + "\n" + line + "\n" + `{"a":2}` + "\n")
 		emitStream(cw, "C07", nil, nil, "tolerant", chunk(data, []int{1 << 16}), nil, data[:20], true)
 	}
+}
+
+// emitStreamTwice: Stream() is called, ends on a fatal write failure (default processor), and is called AGAIN on
+// the same streamer with a writer that works: the second call goes on with the line after the one that failed.
+// The case handed to the model is the plain stream of the lines the first call had not reached.
+func emitStreamTwice(cw *caseWriter, ti, to []colDesc, data []byte, failAt int) {
+	wevs := make([]string, failAt+1)
+	for i := range wevs {
+		wevs[i] = "ok"
+	}
+	wevs[failAt] = "fail"
+	r := &scriptReader{evs: chunk(data, []int{1 << 20})}
+	w := &scriptWriter{evs: wevs}
+	var calls []string
+	var ret2 error
+	consumed := 0
+	pan := guard(func() {
+		st := jsonline.NewStreamer(buildTemplate(ti).GetImporter(r), buildTemplate(to).GetExporter(w)).WithProcessor(func(row jsonline.Row, err error) error {
+			b := "0"
+			if row != nil {
+				b = "1"
+			}
+			calls = append(calls, b+":"+classifyStream(err))
+			return err
+		})
+		ret1 := st.Stream()
+		if ret1 == nil {
+			consumed = -1 // the first call was not stopped: nothing to resume
+			return
+		}
+		consumed = failAt + 1 // every line of these streams is accepted: the failing write is the (failAt+1)-th line's
+		calls, w.writes = nil, nil
+		ret2 = st.Stream()
+	})
+	if consumed < 0 {
+		return
+	}
+	lines := bytes.SplitAfter(data, []byte("\n"))
+	if consumed > len(lines) {
+		consumed = len(lines)
+	}
+	rest := bytes.Join(lines[consumed:], nil)
+	obs := "panic " + strings.ReplaceAll(pan, "\t", " ")
+	if pan == "" {
+		ws := make([]string, len(w.writes))
+		for i, b := range w.writes {
+			ws[i] = hxs(string(b))
+		}
+		cs, wss := strings.Join(calls, ","), strings.Join(ws, ";")
+		if cs == "" {
+			cs = "-"
+		}
+		if wss == "" {
+			wss = "none"
+		}
+		obs = fmt.Sprintf("ret=%s calls=%s writes=%s", classifyStream(ret2), cs, wss)
+	}
+	ext := map[string]string{}
+	for _, l := range bytes.Split(data, []byte("\n")) {
+		extForJSON(l, ext)
+	}
+	cw.count("stream-twice")
+	cw.emit(fmt.Sprintf("C08 second Stream() after a fatal write failure at %d | %s", failAt, string(data)), true, "stream", "C08", descStr(ti), descStr(to), "default", readerStr(chunk(rest, []int{1 << 20})), "-", extStr(ext), obs)
 }
 
 // longStream: n lines drawn from the line alphabet (one in eight malformed), for what shows only on a later line.
@@ -399,6 +518,19 @@ func genC08(cw *caseWriter, seed uint64, tier string) {
 			}
 		}
 	}
+	// Stream() called again after it was stopped by a fatal write failure
+	for _, data := range [][]byte{[]byte("{\"a\":1}\n{\"a\":2}\n{\"a\":3}\n{\"a\":4}\n"), []byte("{\"a\":1}\n{\"a\":2}\n{\"a\":3}\n{\"a\":4}"), []byte("{\"a\":1}\r\n{\"a\":2}\r\n{\"a\":3}\r\n{\"a\":4}\r\n{\"a\":5}\r\n")} {
+		for j := 0; j < 3; j++ {
+			emitStreamTwice(cw, ti, to, data, j)
+			emitStreamTwice(cw, nil, nil, data, j)
+		}
+	}
+	// the command: an unreadable standard input, the base streams, the line that cannot be delivered
+	emitStreamJl(cw, "C08", ti, to, nil, true)
+	emitStreamJl(cw, "C08", nil, nil, nil, true)
+	for _, data := range streams {
+		emitStreamJl(cw, "C08", ti, to, data, false)
+	}
 	cw.extra["exhaustive_fault_offsets"] = true
 	// 100 empty reads then data: no-progress
 	emitStream(cw, "C08", nil, nil, "default", append(chunk(make([]byte, 0), []int{1}), func() []readEv {
@@ -421,6 +553,8 @@ func genC08(cw *caseWriter, seed uint64, tier string) {
 	} else {
 		emitStream(cw, "C08", nil, nil, "tolerant", chunk([]byte("{\"a\":1}\n"+big), []int{1 << 20}), nil, nil, true)
 	}
+	emitStreamJl(cw, "C08", nil, nil, []byte("{\"a\":1}\n"+big+"\n{\"a\":2}\n"), false)
+	emitStreamJl(cw, "C08", nil, nil, []byte("{\"a\":1}\n"+big[:len(big)-1]+"\n{\"a\":2}\n"), false)
 }
 
 // scanner port validation at small buffer sizes
